@@ -77,6 +77,8 @@ let check_line (l : string) : string =
   let cfg = start_cfg msize dotu auth in
   let c = ref (conn_init cfg) in
   let v : (n * n) list ref = ref [] in   (* abstract valid set, from the implementation's replies *)
+  let ov : (n * n) list ref = ref [] in  (* abstract open state (0 closed, 1 + mode open), from requests and replies only *)
+  let tv : (n * n) list ref = ref [] in  (* abstract type bits, from requests and replies only *)
   let verdict = ref "OK" in
   let dead = ref false in
   let set_verdict s = if !verdict = "OK" then verdict := s in
@@ -182,11 +184,25 @@ let check_line (l : string) : string =
                       set_verdict (Printf.sprintf "ORACLE C04.invalidated_not_destroyed %s kind=%s fid=%d" where kind ki)
                     else if after && cd <> 0 then
                       set_verdict (Printf.sprintf "ORACLE C04.valid_fid_destroyed %s kind=%s fid=%d" where kind ki)) keys;
-                v := v';
                 (* C05 *)
                 let want_fwd = fid_ok c0 tm && rules_ok cfg c0 tm sc in
                 if fwd_i <> want_fwd then
                   set_verdict (Printf.sprintf "ORACLE C05.forward_iff_rules %s kind=%s forwarded=%b rules=%b" where kind fwd_i want_fwd);
+                (* the same rules on the state the protocol HISTORY determines (fid set, open state, type bits kept from
+                   the requests and the implementation's replies alone - nothing taken from the model's fid records) *)
+                let ca = { c_msize = c0.c_msize; c_dotu = c0.c_dotu;
+                           c_fids = List.map (fun (k, u) ->
+                               let oc = match vget !ov k with Some x -> x | None -> N0 in
+                               let ty = match vget !tv k with Some x -> x | None -> N0 in
+                               let opened = not (N.eqb oc N0) in
+                               (k, { f_ref = Zpos XH; f_opened = opened; f_omode = (if opened then N.sub oc (n_of_int 1) else N0);
+                                     f_type = ty; f_user = u; f_diroff = N0 })) !v } in
+                let want_h = fid_ok ca tm && rules_ok cfg ca tm sc in
+                if fwd_i <> want_h then
+                  set_verdict (Printf.sprintf "ORACLE C05.forwarding_differs_from_the_rules_on_the_history_state %s kind=%s forwarded=%b rules=%b" where kind fwd_i want_h);
+                v := v';
+                ov := ospec_step !ov tm rm;
+                tv := tspec_step !tv tm rm;
                 if List.length (List.filter is_fwd_i ev) > 1 then
                   set_verdict (Printf.sprintf "ORACLE C05.forwarded_twice %s kind=%s" where kind);
                 if not fwd_i && not is_err then
